@@ -3,6 +3,7 @@
 (the agent gets the property text, the short names of earlier changes for the property and a scratch worktree; nothing from /verif)"""
 import sys, json, os
 rnd, prop = sys.argv[1], sys.argv[2]
+target = sys.argv[3] if len(sys.argv) > 3 else None     # optional: the file the change has to be made in
 props = {json.loads(l)['id']: json.loads(l) for l in open('/verif/properties.jsonl')}
 p = props[prop]
 earlier = sorted(d for d in os.listdir('/verif/seeded') if d.split('-')[0].rstrip('abcdefghijklmnopqrstuvwxyz') == prop)
@@ -16,7 +17,8 @@ for d in earlier:
     except OSError:
         pass
 files = '\n'.join('  - %s (%d earlier changes)' % (f, k) for f, k in touched.most_common())
-wt = '/tmp/w%s-%s' % (rnd, prop)
+wt = '/tmp/w%s-%s' % (rnd, prop) + (('-' + os.path.basename(target).replace('.rs', '')) if target else '')
+where = ('\n   The core of your change MUST be in the file %s (helpers elsewhere are fine): this round looks at parts of the code that earlier rounds left alone.' % target) if target else ''
 print(f"""You are helping to test a verification effort for the Rust crate maciejhirsz/logos (a derive-macro lexer generator). Your job is to write ONE realistic, subtle change to logos that breaks the semantic property quoted below while the crate still compiles and its existing test suite still passes, plus a demonstration that exposes it.
 
 Work ONLY inside the scratch git worktree {wt} (a checkout of the logos repository). Do not read, list or touch /verif or /repo, and do not look at git history or other worktrees under /tmp. The sandbox has no network: always pass --offline to cargo (CARGO_NET_OFFLINE=true). Do not enable or rely on the cargo features `verif_hooks` / `verif_trace` or the files logos-codegen/src/verif.rs and src/verif_trace.rs (they are instrumentation; leave them alone).
@@ -32,7 +34,7 @@ WHAT TO PRODUCE
 4. Earlier rounds already produced the following changes for this property. Yours must use a DIFFERENT mechanism in a DIFFERENT place of the code (another file or another function, another trigger):
 {names}
    Files those earlier changes touched (prefer a file, or at least a function, that is not on this list or is rarely on it; the whole workspace is in scope: logos-codegen/src/**, src/*.rs, logos-cli/src/main.rs, logos-derive):
-{files}
+{files}{where}
 5. Verify all three facts yourself (suite green with the change, demo fails with it, demo passes without it - use `git diff > my_change.diff`, `git checkout -- logos-codegen src logos-derive logos-cli`, and `git apply my_change.diff`; never `git stash`). Then leave the worktree with the change APPLIED and the demo file present, and write {wt}/meta.txt containing: a short name for the change (a few words), what the change is and where, which clause of the property it breaks, exactly what it needs in order to manifest, and the commands you ran with their outcomes.
 
 Keep the build output inside the worktree (default target dir). Your final answer should be a brief report: short name, files touched, trigger, and the three verification outcomes.""")
